@@ -168,7 +168,10 @@ func durationConstLE(v ssa.Value, maxNanos int64) (int64, bool) {
 
 // expiryShape checks v == jwt.NewNumericDate(time.Now().Add(const d)), d <= max.
 func expiryShape(v ssa.Value, maxNanos int64) (bool, string) {
-	// Expiry is *NumericDate
+	// Expiry is *NumericDate (possibly produced by a first-party helper such as tokenExpiry())
+	if theCtx != nil && v != nil {
+		v = theCtx.downValue(v, 0)
+	}
 	call, ok := strip(v).(*ssa.Call)
 	if !ok || calleeName(call) != joseJWT+".NewNumericDate" {
 		return false, "expiry is not jwt.NewNumericDate(...)"
